@@ -17,6 +17,12 @@
 //!                   re-enumerated here in both optimiser modes.
 
 mod structure;
+#[path = "../c02/expr.rs"]
+#[allow(dead_code, unused_imports, unused_variables)]
+mod expr;
+#[path = "../c03/stmt.rs"]
+#[allow(dead_code, unused_imports, unused_variables)]
+mod stmt;
 
 use mccore::engine::{self, Out};
 use mccore::vals::{self, V};
@@ -325,6 +331,72 @@ fn main() {
             }
         },
     );
+
+    // ------------------------------------------------------------------ reuse: C02's expressions
+    // every program of C02's families (operator pairs under their first leaf assignments, all
+    // short-circuit / undefined / operand-kind / literal programs), sharded by position
+    const SHARDS: u64 = 32;
+    run.family(
+        Family::new(
+            "reuse-c02-expressions",
+            SHARDS,
+            "every program of C02's P (operator pairs; thorough: triples, capped leaf assignments), S, U, T, L families with its own context, both optimiser modes",
+        ),
+        |item, acc| {
+            let mut idx = 0u64;
+            let cap = if thorough { 4 } else { 6 };
+            expr::families::for_each_program(thorough, cap, &mut |case| {
+                idx += 1;
+                if idx % SHARDS != item {
+                    return;
+                }
+                let prog = Program { templates: vec![("t.txt".into(), case.source())], entry: "t.txt".into() };
+                let ctx = [(case.id.clone(), case.context())];
+                judge(&prog, &ctx, acc, "reuse-c02-expressions");
+            });
+        },
+    );
+
+    // ------------------------------------------------------------------ reuse: C03's statements
+    let stmt_fams: Vec<(&str, u64, fn(u64, bool, &mut stmt::fam::Emit<'_>))> = {
+        let mut v: Vec<(&str, u64, fn(u64, bool, &mut stmt::fam::Emit<'_>))> = vec![
+            ("reuse-c03-f5-jump-patching", stmt::fam::f5_items(thorough), stmt::fam::f5_decode),
+            ("reuse-c03-f2-loops", stmt::fam::f2_items(thorough), stmt::fam::f2_decode),
+        ];
+        if thorough {
+            v.push(("reuse-c03-f1-branches", stmt::fam::f1_items(thorough), stmt::fam::f1_decode));
+            v.push(("reuse-c03-f4-captures", stmt::fam::f4_items(thorough), stmt::fam::f4_decode));
+        }
+        v
+    };
+    for (name, items, decode) in stmt_fams {
+        run.family(
+            Family::new(name, items, "the complete C03 family of the same name (every program, every binding, every placement), both optimiser modes"),
+            |item, acc| {
+                decode(item, thorough, &mut |g: stmt::Group<'_>| {
+                    let templates = g.program.sources();
+                    let ctxs: Vec<(String, Context)> = g
+                        .bindings
+                        .iter()
+                        .filter(|b| b.global.is_empty())
+                        .map(|b| {
+                            let mut c = Context::new();
+                            for (k, v) in &b.ctx {
+                                if *v != V::Undef {
+                                    c.insert_value(k.clone(), v.to_tera());
+                                }
+                            }
+                            (b.tag.clone(), c)
+                        })
+                        .collect();
+                    for entry in &g.program.entries {
+                        let prog = Program { templates: templates.clone(), entry: entry.clone() };
+                        judge(&prog, &ctxs, acc, name);
+                    }
+                });
+            },
+        );
+    }
 
     if run.is_supervisor() {
         let groups = run.counter("fused_groups");
